@@ -83,4 +83,107 @@ def reads : List Ev → List Resp
   | .read r :: t => r :: reads t
   | _ :: t => reads t
 
+/-! ### small-step form and several terminals on one bus
+
+The coroutine `to_operational` only ever waits for the answer to an AL status read.  `DS` is its
+state at such a point, `resume` runs it up to the next read.  A bus carries the datagrams of many
+callers (several terminals brought up with `gather`, address probes that nobody answers, ...) in
+shared frames; `sysRun` interleaves the drivers of several terminals under an arbitrary schedule. -/
+
+inductive DS where
+  | start                                     -- first `get_state` issued
+  | polling (cur : Nat) (todo : List Nat)     -- `cur` requested, polling; `todo` = rest of the `for` loop
+  | fin (o : Outcome)                         -- the call is over
+deriving Repr, DecidableEq
+
+/-- top of the `for` loop body with `state` known and `todo` still to iterate over -/
+def enter (target : Nat) : List Nat → Nat → List Ev × DS
+  | [], _ => ([], .fin .fellOff)
+  | cur :: todo, state =>
+    if state ≥ target then ([], .fin .returned) else ([.write cur], .polling cur todo)
+
+/-- resume the coroutine with the answer to its pending AL status read -/
+def resume (target : Nat) : DS → Resp → List Ev × DS
+  | .start, r =>
+    if !valid r.state then ([.read r], .fin .valueError)
+    else if r.err then
+      let p := enter target (after ms_INIT) ms_INIT
+      (.read r :: .write ackValue :: p.1, p.2)
+    else
+      let p := enter target (after r.state) r.state
+      (.read r :: p.1, p.2)
+  | .polling cur todo, r =>
+    if !valid r.state then ([.read r], .fin .valueError)
+    else if r.err then ([.read r], .fin .raised)
+    else if r.state = cur then
+      let p := enter target todo cur
+      (.read r :: p.1, p.2)
+    else ([.read r], .polling cur todo)
+  | .fin o, _ => ([], .fin o)
+
+/-- run the coroutine from state `d` on a script of answers -/
+def runD (target : Nat) : DS → List Resp → List Ev × Outcome
+  | .fin o, _ => ([], o)
+  | .start, [] => ([.readBlocked], .blocked)
+  | .polling _ _, [] => ([.readBlocked], .blocked)
+  | .start, r :: rs =>
+    let p := resume target .start r
+    let q := runD target p.2 rs
+    (p.1 ++ q.1, q.2)
+  | .polling c t, r :: rs =>
+    let p := resume target (.polling c t) r
+    let q := runD target p.2 rs
+    (p.1 ++ q.1, q.2)
+
+/-- one terminal on the bus together with the master's driver for it -/
+structure Dev where
+  target : Nat
+  ds : DS
+  rs : List Resp           -- the answers the terminal will still give
+deriving Repr, DecidableEq
+
+/-- a datagram of this terminal's driver is processed: the driver gets its next answer -/
+def devStep (d : Dev) : List Ev × Dev :=
+  match d.ds, d.rs with
+  | .fin _, _ => ([], d)
+  | _, [] => ([], d)
+  | ds, r :: rs =>
+    let p := resume d.target ds r
+    (p.1, { d with ds := p.2, rs := rs })
+
+def devRun : Nat → Dev → List Ev × Dev
+  | 0, d => ([], d)
+  | k + 1, d =>
+    let p := devStep d
+    let q := devRun k p.2
+    (p.1 ++ q.1, q.2)
+
+/-- participant `i` advances; an index outside the list is traffic that concerns no terminal
+under consideration (other stations, datagrams nobody answers) -/
+def sysStep (sys : List Dev) (i : Nat) : List (Nat × Ev) × List Dev :=
+  match sys[i]? with
+  | none => ([], sys)
+  | some d =>
+    let p := devStep d
+    (p.1.map (fun e => (i, e)), sys.set i p.2)
+
+def sysRun : List Dev → List Nat → List (Nat × Ev) × List Dev
+  | sys, [] => ([], sys)
+  | sys, i :: sched =>
+    let p := sysStep sys i
+    let q := sysRun p.2 sched
+    (p.1 ++ q.1, q.2)
+
+/-- what terminal `i` saw -/
+def proj (i : Nat) (evs : List (Nat × Ev)) : List Ev := (evs.filter (fun e => e.1 == i)).map (·.2)
+
+def DS.outcome : DS → Outcome
+  | .fin o => o
+  | _ => .blocked
+
+/-- the read that is still waiting for an answer -/
+def DS.pending : DS → List Ev
+  | .fin _ => []
+  | _ => [.readBlocked]
+
 end Ebv.AlDriver
